@@ -80,6 +80,7 @@ uuid.uuid4 = _uuid4
 
 IDGENS = {
     'sequential': lambda: generators.sequential,
+    'sequential0': lambda: (lambda: generators.sequential(start=0, step=5)),        # the first id is 0 (falsy)
     'randint12': lambda: (lambda: generators.randint(1, 2)),
     'randint1M': lambda: (lambda: generators.randint(1, 10 ** 6)),
     'random1ab': lambda: (lambda: generators.random(1, 'ab')),
@@ -463,7 +464,7 @@ def gen_cases(ctx):
                 for method in ('echo', 'terr', 'ferr', 'herr', 'uerr', 'boom'):
                     for shape in ARGSHAPES:
                         for vi in (range(len(VALS)) if shape != 'none' else [0]):
-                            if idgen not in ('sequential', 'randint12') and vi > 1:
+                            if idgen not in ('sequential', 'sequential0', 'randint12') and vi > 1:
                                 continue
                             yield dict(part='single', pair=pair, idgen=idgen, strict=strict, method=method, shape=shape, vi=vi)
     L = ctx.pick(4, 4)
@@ -474,8 +475,8 @@ def gen_cases(ctx):
                 for shift in ((0, 3) if n <= 2 else (0,)):
                     elems = [(ms[i], kinds[i], ARGSHAPES[(i + shift + 1) % 5]) for i in range(n)]
                     for pair in pairs:
-                        for idgen in ('sequential', 'randint12', 'random1ab', 'randint1M', 'random', 'uuid'):
-                            if idgen not in ('sequential',) and (n > 3 or pair[0] != pair[1]):
+                        for idgen in ('sequential', 'sequential0', 'randint12', 'random1ab', 'randint1M', 'random', 'uuid'):
+                            if idgen not in ('sequential', 'sequential0') and (n > 3 or pair[0] != pair[1]):
                                 continue
                             if idgen in ('randint1M', 'random', 'uuid') and len(set(ms)) > 1:
                                 continue
